@@ -129,6 +129,14 @@ theorem ly_every_456 (ops : List Op) :
   have : (pos (exec powerOn ops)).line = lyAt (4 * ticksOf ops) := by rw [h, sched_line]
   exact this
 
+/-- Within every frame period LY takes each value 0..153 on exactly one interval of 456 clocks
+(114 ticks): `lyAt t = l` iff the clock within the period lies in line `l`'s slot (the period
+starts at line 144, so line `l` is slot `(l + 10) % 154`). -/
+theorem ly_slot (t l : Nat) (hl : l < 154) :
+    lyAt t = l ↔ 456 * ((l + 10) % 154) ≤ t % 70224 ∧ t % 70224 < 456 * ((l + 10) % 154) + 456 := by
+  unfold lyAt
+  omega
+
 /-- Lines 0..143 are mode 2 for 80 clocks, mode 3 for 188, mode 0 for 188; lines 144..153 are
 mode 1 throughout (`modeAt` is that sentence; see `Spec/Lcd.lean`). -/
 theorem line_modes (ops : List Op) :
@@ -170,7 +178,7 @@ theorem frame_70224 :
   refine ⟨sched_period, run_frame_fixed, ?_⟩
   intro p h
   have h0 := h 0
-  have h1 := h (455 - p % 456)
+  have h1 := h (456 - p % 456)
   simp only [lyAt] at h0 h1
   omega
 
@@ -210,13 +218,23 @@ enable bit is set is entered, or LY changes to LYC with the coincidence enable s
 theorem stat_flag (s : State) (k : Nat) (h : pos s = sched (4 * k)) :
     hasStat (tick4 s).2 = statEv (enOf s) s.lyc (4 * k) (4 * k + 4) := tick_stat s k h
 
+/-- the same as a proposition: STAT is requested in a tick iff a mode whose enable bit is set is
+entered in it, or LY changes in it to a value equal to LYC while the coincidence enable is set -/
+theorem stat_iff (s : State) (k : Nat) (h : pos s = sched (4 * k)) :
+    hasStat (tick4 s).2 = true ↔
+      ((sched (4 * k)).mode ≠ (sched (4 * k + 4)).mode ∧ (enOf s).forMode (sched (4 * k + 4)).mode = true) ∨
+      ((sched (4 * k)).line ≠ (sched (4 * k + 4)).line ∧ (sched (4 * k + 4)).line = s.lyc ∧ s.irqLyc = true) := by
+  rw [tick_stat s k h]
+  simp only [statEv, statEvP, modeEnteredP, lyChangedP, Bool.or_eq_true, Bool.and_eq_true, bne_iff_ne, ne_eq,
+    beq_iff_eq, enOf, and_assoc]
+
 /-- mode part: with the coincidence enable clear, STAT is requested exactly on entry to a mode
 whose enable bit is set -/
 theorem stat_on_mode_entry (s : State) (k : Nat) (h : pos s = sched (4 * k)) (hl : s.irqLyc = false) :
     hasStat (tick4 s).2 =
       (modeEntered (4 * k) (4 * k + 4) && (enOf s).forMode (sched (4 * k + 4)).mode) := by
   rw [tick_stat s k h]
-  simp [statEv, enOf, hl]
+  simp [statEv, statEvP, modeEntered, enOf, hl]
 
 /-- coincidence part: with the three mode enables clear, STAT is requested exactly when LY
 changes to a value equal to LYC and the coincidence enable is set (any LYC, 0..255 and beyond) -/
@@ -229,7 +247,8 @@ theorem stat_on_lyc (s : State) (k : Nat) (h : pos s = sched (4 * k))
     intro m
     simp only [Enables.forMode, enOf, h2, h1, h0]
     split <;> rfl
-  simp [statEv, this, enOf]
+  simp only [statEv, statEvP, this, Bool.and_false, Bool.false_or]
+  rfl
 
 /-- a batch returns the STAT flag iff some tick inside it carries an enabled STAT event -/
 theorem stat_batch (n : Nat) (s : State) (k : Nat) (h : pos s = sched (4 * k)) :
@@ -241,11 +260,8 @@ theorem run_keeps_regs (n : Nat) (s : State) :
   ⟨(run_regs n s).1, (run_regs n s).2, run_flags_lt n s⟩
 
 /-- a STAT write stores exactly bits 6..3 as the four enables -/
-theorem setStat_enables (v : Nat) (s : State) : enOf (setStat v s).1 = Enables.ofByte v := by
-  have hb : ∀ i, (v &&& 2 ^ i != 0) = v.testBit i := by
-    intro i
-    rw [Nat.testBit_eq_decide_div_mod_eq, Nat.and_pow_two_eq_mod_two_pow_sub_self_mod_two_pow.symm ▸ rfl]
-  sorry
+theorem setStat_enables (v : Nat) (s : State) : enOf (setStat v s).1 = Enables.ofByte v :=
+  setStat_enOf v s
 
 /-! ### STAT read-back -/
 
@@ -254,15 +270,9 @@ theorem stat_bits (s : State) :
     getStat s % 4 = s.mode.toNat ∧ (getStat s).testBit 2 = (s.line == s.lyc) ∧
     (getStat s).testBit 3 = s.irqM0 ∧ (getStat s).testBit 4 = s.irqM1 ∧
     (getStat s).testBit 5 = s.irqM2 ∧ (getStat s).testBit 6 = s.irqLyc ∧ getStat s < 128 := by
-  obtain ⟨m, d, l, c, e1, e2, e3, e4⟩ := s
-  have hc : (c == l) = (l == c) := by
-    by_cases h : c = l
-    · simp [h]
-    · have : ¬ l = c := fun h' => h h'.symm
-      simp [h, this]
-  simp only [getStat, hc]
-  generalize (l == c) = b
-  cases m <;> cases e1 <;> cases e2 <;> cases e3 <;> cases e4 <;> cases b <;> decide
+  rw [getStat_eq]
+  have h := statOf_bits s.mode s.irqLyc s.irqM2 s.irqM1 s.irqM0 (s.line == s.lyc)
+  exact ⟨h.1, h.2.1, h.2.2.1, h.2.2.2.1, h.2.2.2.2.1, h.2.2.2.2.2.1, h.2.2.2.2.2.2.1⟩
 
 /-- for every history from power-on, STAT bits 0..2 reflect the schedule at the elapsed time -/
 theorem stat_bits_sched (ops : List Op) :
@@ -271,16 +281,7 @@ theorem stat_bits_sched (ops : List Op) :
   generalize exec powerOn ops = s at h
   have hm : s.mode.toNat = (sched (4 * ticksOf ops)).mode := by rw [← h]; rfl
   have hl : s.line = (sched (4 * ticksOf ops)).line := by rw [← h]; rfl
-  simp only [statLow, ← hm, ← hl]
-  obtain ⟨m, d, l, c, e1, e2, e3, e4⟩ := s
-  have hc : (c == l) = (l == c) := by
-    by_cases h : c = l
-    · simp [h]
-    · have : ¬ l = c := fun h' => h h'.symm
-      simp [h, this]
-  simp only [getStat, hc]
-  generalize (l == c) = b
-  cases m <;> cases e1 <;> cases e2 <;> cases e3 <;> cases e4 <;> cases b <;> decide
+  rw [getStat_eq, (statOf_bits _ _ _ _ _ _).2.2.2.2.2.2.2, statLow, ← hm, ← hl]
 
 /-! ### non-vacuity of the hypotheses -/
 
@@ -291,8 +292,11 @@ example : let s : State := ⟨.m0, 184, 143, 144, true, false, true, false⟩
     pos (tick4 s).1 = sched (4 * 17556) := by decide
 
 /-- the same state is what the model reaches from power-on with the two writes -/
-example : exec powerOn [.stat 0x50, .lyc 144, .run 17555] = ⟨.m0, 184, 143, 144, true, false, true, false⟩ := by
-  decide +kernel
+example : exec powerOn ([.stat 0x50, .lyc 144] ++ [.run 17555]) = ⟨.m0, 184, 143, 144, true, false, true, false⟩ := by
+  apply state_ext
+  · rw [lcd_closed_form_ops]; decide
+  · rw [exec_append_run, (run_regs 17555 _).1]; rfl
+  · rw [exec_append_run, (run_regs 17555 _).2]; rfl
 
 /-- `stat_on_mode_entry`'s hypotheses: entering mode 0 on line 5 with only the mode-0 enable -/
 example : let s : State := ⟨.m3, 184, 5, 0, false, false, false, true⟩
